@@ -149,6 +149,14 @@ Proof.
       destruct r2; simpl in *; split; auto; try (rewrite <- I3; reflexivity).
 Qed.
 
+Theorem chain_result : forall v mws, forallb is_simple mws = true -> forall s w,
+  w_calls (fst (stack v mws (scripted s) w)) = w_calls (fst (scripted s w))
+  /\ rkind (snd (stack v mws (scripted s) w)) = eff mws (rkind (snd (scripted s w))).
+Proof.
+  intros v mws Hs s w.
+  destruct (stack_sim v mws Hs _ _ (sim_scripted s) w w (conj eq_refl eq_refl)) as [[A _] B]. auto.
+Qed.
+
 Lemma effo_ret : forall mws l, effo mws (Ret l) = Ret l.
 Proof. induction mws as [|m mws IH]; intros; simpl; auto. rewrite IH. destruct m; reflexivity. Qed.
 Lemma rkind_effo1 : forall m o, rkind (effo1 m o) = eff1 m (rkind o).
